@@ -282,3 +282,25 @@ func RunNative(harnesses map[string]func()) (exit int) {
 	fmt.Fprintln(out, "ZZVERIF DONE")
 	return exit
 }
+
+var tempDir string
+
+// IsolateTemp directs testutils.TempFile (RUNNER_TEMP) to a fresh directory so
+// that TempFilesLeft can count what an operation leaves behind.
+func IsolateTemp() {
+	d, err := os.MkdirTemp("", "zzverif-tmp-")
+	if err != nil {
+		panic(err)
+	}
+	tempDir = d
+	os.Setenv("RUNNER_TEMP", d)
+}
+
+// TempFilesLeft returns the number of files left in the isolated temp directory.
+func TempFilesLeft() int {
+	if tempDir == "" {
+		return 0
+	}
+	es, _ := os.ReadDir(tempDir)
+	return len(es)
+}
